@@ -1,0 +1,15 @@
+//go:build verif
+
+package watcher
+
+// VerifWatch, when set, replaces the fsnotify event source of WatchFileForUpdates
+// (verification builds only, see build tag): the simulator records the watch and
+// delivers "file changed" by calling action itself.
+var VerifWatch func(filename string, done <-chan bool, action func()) error
+
+func verifWatch(filename string, done <-chan bool, action func()) (bool, error) {
+	if VerifWatch == nil {
+		return false, nil
+	}
+	return true, VerifWatch(filename, done, action)
+}
